@@ -1,6 +1,8 @@
 package poa
 
 import (
+	stdmath "math"
+
 	sdkerrors "github.com/cosmos/cosmos-sdk/types/errors"
 	"github.com/cosmos/cosmos-sdk/x/staking/types"
 
@@ -118,6 +120,11 @@ func (msg MsgSetPower) Validate(ac address.Codec) error {
 
 	if msg.Power < 1_000_000 {
 		return ErrPowerBelowMinimum
+	}
+
+	// the power becomes a token amount handled as int64
+	if msg.Power > stdmath.MaxInt64 {
+		return sdkerrors.ErrInvalidRequest.Wrapf("power %d exceeds the maximum of %d", msg.Power, int64(stdmath.MaxInt64))
 	}
 
 	return nil
